@@ -134,6 +134,11 @@ def ty_range(body, tix):
     return None
 
 
+# (ADT key, field name) -> (lo, hi): value ranges that hold for every value of the ADT because its only constructor (a
+# decoder) enforces them; filled by panic_common.scan after re-verifying each entry's guard on the current tree
+FIELD_INV = {}
+
+
 class Intervals:
     def __init__(self, prog, body, param_iv=None):
         self.prog = prog
@@ -171,6 +176,11 @@ class Intervals:
             tix = self.body.locals[pl[0]][0]
         tr = ty_range(self.body, tix)
         if pl[1]:
+            last = pl[1][-1]
+            if isinstance(last, list) and last[0] == "f" and FIELD_INV:
+                inv = FIELD_INV.get((last[2], last[3]))
+                if inv is not None:
+                    return _meet(tr, inv)
             # overflow-checked tuple `(x, false).0`
             if len(pl[1]) == 1 and isinstance(pl[1][0], list) and pl[1][0][0] == "f" and pl[1][0][2] == "tuple" and pl[1][0][3] == "0":
                 r = self._local(pl[0], depth, tuple_first=True)
